@@ -5,6 +5,7 @@ import Driver.Ast
 import Mistletoe.Model.Document
 import Mistletoe.Model.Jira
 import Mistletoe.Model.XWiki
+import Mistletoe.Model.Latex
 open Lean Mistletoe
 
 namespace Driver.Contrib
@@ -38,5 +39,12 @@ def jiraOp (j : Json) : Except String Json := renderWith Jira.render j
 
 /-- op "xwiki.render": `XWiki20Renderer().render(…)` (Model/XWiki.lean) -/
 def xwikiOp (j : Json) : Except String Json := renderWith XWiki.render j
+
+/-- op "latex.text": `LaTeXRenderer().render(…)` from a text or a tree: the total `Latex.render` behind the predicates
+    that say where the Python raises (the `\\verb` refusal; a class without render-map entry or a bad align option) -/
+def latexOp (j : Json) : Except String Json :=
+  renderWith (fun d =>
+    if Latex.refusesBlocks d.kids then .err (.refusal 0)
+    else if Latex.supportedBlocks d.kids then .ok (Latex.render d) else .err .key) j
 
 end Driver.Contrib
